@@ -11,6 +11,7 @@
      go_slice_from  l[i:]
      go_quot/go_rem integer / and % (truncated, as in Go); Panic when the divisor is 0
      go_shift_count a signed shift count: Panic when negative
+     frag W V       result of a fragment of a function body (Returned k w | Reached v)
      go_loop        `for` with explicit fuel: the loop body is a function from the loop state
                     (the variables the loop assigns) to
                       Next s   go round again with state s
@@ -69,6 +70,13 @@ Fixpoint go_loop {St R : Type} (fuel : nat) (body : St -> outcome (step St R)) (
       | OutOfFuel => OutOfFuel
       end
   end.
+
+(* result of a fragment (tools/gofunc "F#prefix": the first statements of a function body) *)
+Inductive frag (W V : Type) : Type :=
+| Returned (k : Z) (w : W)   (* the k-th return statement of the function was reached; w = the fields assigned so far *)
+| Reached (v : V).           (* control reaches the statement after the fragment, with variables v *)
+Arguments Returned {W V} k w.
+Arguments Reached {W V} v.
 
 (* boolean equality of results (used by the differential validation of the translator) *)
 Fixpoint list_eqb (a b : list Z) : bool :=
